@@ -453,9 +453,16 @@ class Function:
                             s = '&' + s + '[' + E(idx) + ']'
             return s
         if op in BINOPS:
-            return '(' + E(i.ops[0]) + BINOPS[op] + E(i.ops[1]) + ')'
+            a_, b_ = i.ops[0], i.ops[1]
+            # canonical operand order for commutative operators: a constant goes to the right (`1 + i` prints as `(i+1)`)
+            if op in ('add', 'mul', 'and', 'or', 'xor') and self.const_of(a_) is not None and self.const_of(b_) is None:
+                a_, b_ = b_, a_
+            return '(' + E(a_) + BINOPS[op] + E(b_) + ')'
         if op == 'icmp':
-            return '(' + E(i.ops[0]) + PREDS[i.pred] + E(i.ops[1]) + ')'
+            a_, b_ = i.ops[0], i.ops[1]
+            if i.pred in ('eq', 'ne') and self.const_of(a_) is not None and self.const_of(b_) is None:
+                a_, b_ = b_, a_          # `0 == x` prints as `(x==0)`
+            return '(' + E(a_) + PREDS[i.pred] + E(b_) + ')'
         if op == 'call':
             if i.asm is not None:
                 return 'asm'
